@@ -369,6 +369,25 @@ def opInterleave (j : Json) : R Json := do
       | none => Json.null).toArray),
     ("reqs", Json.arr (urls.map fun u => Json.arr #[encPath u, Json.num (s2.reqs u)]).toArray)]
 
+open Index in
+/-- {"kind":"packages"|"sources","texts":[str...],"filter":{...},"ignored":[path]} -/
+def opParseIndex (j : Json) : R Json := do
+  let texts ← (← fArr j "texts").mapM (·.getStr?)
+  let fj ← field j "filter"
+  let strs := fun (k : String) => do return (← (← fArr fj k).mapM (·.getStr?)).map String.toList
+  let flt : Filter := { includeSource := ← strs "include_source_name", excludeSource := ← strs "exclude_source_name",
+                        includeBinary := ← strs "include_binary_packages", excludeBinary := ← strs "exclude_binary_packages" }
+  let ign ← (← fArr j "ignored").mapM decPath
+  let isPk := (← fStr j "kind") == "packages"
+  let mut pool : List PoolFile := []
+  for t in texts do
+    let lines := splitLines t.toList
+    match (if isPk then packagesMachine flt ign lines pool else sourcesMachine flt ign lines pool) with
+    | .ok p => pool := p
+    | .error .indexError => return Json.mkObj [("error", "IndexError")]
+    | .error .valueError => return Json.mkObj [("error", "ValueError")]
+  return Json.mkObj [("pool", Json.arr (pool.map fun f => Json.arr #[encPath f.path, Json.num f.size, Json.bool f.ignoreErrors]).toArray)]
+
 def dispatch (j : Json) : R Json := do
   let op ← fStr j "op"
   match op with
@@ -385,6 +404,7 @@ def dispatch (j : Json) : R Json := do
   | "sched" => opSched j
   | "rate" => opRate j
   | "interleave" => opInterleave j
+  | "parse_index" => opParseIndex j
   | "quote" => opQuote j
   | "validate" => opValidate j
   | "metadata_files" => opMetadataFiles j
